@@ -242,7 +242,8 @@ class ScoOperationsRegistry(AbstractScoOperationsRegistry):
             )
             return InvocationState.FAILED
 
-        return InvocationState.FINISHED
+        # the response must carry the same final state as the report (the handler may return a failed state)
+        return execute_result.invocation_state
 
     def start_worker(self):
         """Start worker thread."""
